@@ -150,7 +150,7 @@ def main():
             if w:
                 unknown.insert(0, dict(w, failing_input=True))
         u = unknown[0]
-        if hasattr(prop, "shrink"):
+        if hasattr(prop, "shrink") and not os.environ.get("VERIF_NO_SHRINK"):
             try:
                 u = prop.shrink(u, C) or u
             except Exception as e:  # shrinking is best effort
